@@ -749,6 +749,10 @@ func (m *Machine) fpBits(x *term.T) *term.T {
 // ---------- time model ----------
 
 func (m *Machine) timeNow() TimeV {
+	if m.ps == nil || !m.logging {
+		// inside a package initialiser: any fixed instant is a legal clock reading
+		return TimeV{NS: m.tb.BV(64, 1700000000000000000)}
+	}
 	m.timeVarSeq++
 	v := m.tb.Var(fmt.Sprintf("time.Now!%d", m.timeVarSeq), term.BV64)
 	lo := m.tb.BV(64, 1600000000000000000)
